@@ -57,7 +57,10 @@ CLAIMS['C26'] = dict(
          'equal text: C18 lemma; assumption A-STD-POINTS: pooled points are standardised). Collaborators called '
          'from add_to_pool/remove (data store, DB manager, xtrigger manager, queue manager, '
          'spawn_next_parentless) have assumed frame contracts justified by the census. The database sentence '
-         'of the property (task_pool table == pool after each iteration) is not covered: SQL is opaque.')
+         'of the property (task_pool table == pool after each iteration): only the first half of '
+         'WorkflowDatabaseManager.put_task_pool is under contract (fragment before the insert loop: the '
+         'delete-everything request for the task_pool and prerequisites tables is queued unconditionally); the '
+         'rows inserted are compared with the live pool by the bounded checks of C19 / C30 only.')
 
 CLAIMS['C08'] = dict(
     category='proof',
@@ -204,8 +207,10 @@ CLAIMS['C10'] = dict(
          'up for the output the message completes. Recursion (implied outputs) is verified against the '
          'function\'s own contract; the loop has an invariant; no bound on anything.',
     note=_PROOF_NOTE + 'NOT covered: the third sentence (for any interleaving the final status matches the latest '
-         'job\'s outcome) is a whole-history statement; TaskJobManager._poll_task_job_callback and '
-         'Scheduler.process_queued_task_messages are not under contract. Assumed: split_run_signal (starred '
+         'job\'s outcome) is a whole-history statement; TaskJobManager._poll_task_job_callback is not under '
+         'contract; Scheduler.process_queued_task_messages (which collects the poll requests) has a BOUNDED '
+         'companion only (contracts/c10_bounded.py: every queue of <= 4 messages x every answer pattern, '
+         'recording stubs; reported under bounded_standins_not_proofs). Assumed: split_run_signal (starred '
          'unpacking), spawn_children (callback into the pool: may change other tasks, not this task\'s status '
          'or outputs), data-store / DB / event-handler collaborators, TaskState.status is one of the eight '
          'statuses and retry counters are >= 0 (type invariants, checked at every write under contract). The '
@@ -327,7 +332,10 @@ _bounded('C35', 'c35_bounded',
          'For every runtime hierarchy of <= 5 namespaces (each with every ordered list of distinct earlier '
          'namespaces as parents) and every namespace in it: C3.mro returns exactly the MRO Python computes for '
          'the equivalent class hierarchy, and raises exactly when Python refuses the hierarchy.',
-         'WorkflowConfig.compute_inheritance (which feeds C3 from the parsed configuration) is not covered.')
+         'Second result: the real WorkflowConfig.compute_family_tree (which feeds C3 from the [runtime] section, '
+         'implicit inheritance from root) on every section of <= 4 namespaces besides root stores exactly the '
+         'linearization Python computes. compute_inheritance (the replication of settings along it) is not '
+         'covered.')
 _bounded('C37', 'c37_bounded',
          'For every literal text of a small grammar that eval_var accepts (ints, floats incl. overflow / underflow / '
          '-0.0, quoted strings with quotes, newlines and non-ASCII, bytes, None, bools, complex, and lists / tuples '
@@ -372,7 +380,10 @@ _bounded('C21', 'c21_bounded',
          'position and at commit, the error propagates from the private write and the private database content '
          'afterwards equals the content before the batch; a failed public write does not raise, keeps the batch '
          'queued and counts the attempt; after the next successful write - or recover_pub_from_pri at the '
-         'threshold - the public content equals the private content and the queues are empty.',
+         'threshold - the public content equals the private content and the queues are empty; also when nothing '
+         'new is queued before the retry. Two directed histories (recovery followed by an idle write; two failed '
+         'batches retried together): one defect repaired (621cabe), one known finding (merged retry runs deletes '
+         'before inserts).',
          'SQLite transaction semantics (close without commit = rollback) are SQLite\'s. A process crash in the '
          'middle of a transaction is not simulated (C20 is not applicable).')
 _bounded('C22', 'c22_bounded',
@@ -430,6 +441,107 @@ _bounded('C17', 'c17_bounded',
          'The recurrence arithmetic is metomi.isodatetime (third party), which also serves as the enumeration '
          'oracle: the check decides consistency of Cylc\'s wrappers and caches with it, not the calendar '
          'arithmetic. Recurrences Cylc rejects are skipped (counted in coverage.rule). Seeded shuffles (VERIF_SEED).')
+
+_MIXED_TECH = ('contract-based deductive verification of the per-call mechanisms named in the claim (verification '
+               'conditions generated from the real function bodies, discharged by z3 / cvc5), plus a bounded '
+               'stand-in for the whole-scheduler part: the contract clauses taken from the property statement are '
+               'checked at run time on real in-process Scheduler runs over an enumerated scope - labelled bounded, '
+               'never counted as proved')
+
+
+def _mixed(pid, mod, text, extra=''):
+    CLAIMS[pid] = dict(category='other', text=text, technique=_MIXED_TECH,
+                       note=_PROOF_NOTE + _BOUNDED_NOTE.format(mod=mod) + extra)
+
+
+_mixed('C27', 'c27_bounded',
+       'PROVED: the copy step of TaskProxy.copy_to_reload_successor (every statement of the real body before the '
+       'prerequisite carry-over, verified as a fragment) gives the successor the old submit number, flow-wait and '
+       'manual-trigger flags, the very same outputs object (completed outputs stay completed), the held and '
+       'runahead flags and the job bookkeeping, and leaves status and the old proxy alone. BOUNDED: real Scheduler '
+       'runs of 4 workflows reloaded after every main-loop iteration k < 8 (quick) with unchanged / extended / '
+       'shrunk definitions, and copy_to_reload_successor on 6144 constructed states: status, flows, submit number, '
+       'held / runahead flags, outputs, kept prerequisites, new prerequisites satisfied iff already recorded, '
+       'orphans dropped only if not started. Two defects found and repaired (95f839b, 7f3f789); two known findings '
+       '(queued flag not carried; forced output not recognised for a new prerequisite).',
+       'NOT under contract: the prerequisite carry-over loop and TaskPool._reload_taskdefs (bounded only).')
+_mixed('C29', 'c29_bounded',
+       'PROVED (contracts of C09, tagged C29): TaskState.reset / TaskProxy.state_reset with forced=True never '
+       'yield submitted or running; TaskOutputs.set_message_complete(forced) completes exactly the given output. '
+       'BOUNDED: the real `cylc set` command (validation + TaskPool.set_prereqs_and_outputs) on a paused in-process '
+       'Scheduler for 137 output selections + 100 natural twins + 63 prerequisite selections over 3 generated '
+       'graphs and every target state (not spawned / waiting / submitted / running / failed / succeeded, pooled '
+       'or loaded from the DB): exactly the requested outputs and their documented implied outputs complete; '
+       'exactly the graph children of those outputs spawn with that prerequisite satisfied; the target never '
+       'becomes submitted / running and no job is recorded; defaults; only real prerequisites are satisfied and '
+       'the task runs once all are.',
+       'Implied outputs follow `cylc set --help` (started implies submitted; succeeded / failed imply started). '
+       'NOT under contract: set_prereqs_and_outputs, _set_outputs_itask, _set_prereqs_itask (bounded only).')
+_mixed('C30', 'c30_bounded',
+       'PROVED (contract of C13, tagged C30): Prerequisite.unset_naturally_satisfied unsets exactly the entries of '
+       'the named task that are satisfied and not force-satisfied, leaves every other entry and the key set alone, '
+       'reports whether anything changed and leaves no stale cached answer - for every prerequisite, no bound. '
+       'BOUNDED: the real `cylc remove` on in-process Schedulers: 173 removals (quick) over 8 generated graphs x '
+       'preludes (second flow, merged flows, set --pre) x 0-3 iterations x flow selection: flows taken off, pool '
+       'and history rows, only naturally satisfied child entries unset, children without any satisfied '
+       'prerequisite removed, everything else unchanged; re-run after removal. Two known findings (multi-flow corner '
+       'cases of commands._remove_matched_tasks).',
+       'NOT under contract: commands._remove_matched_tasks, remove_task_from_flows (SQL) - bounded only.')
+_mixed('C31', 'c31_bounded',
+       'PROVED (contracts of C16, tagged C31): IntegerSequence.get_nearest_prev_point returns the greatest point '
+       'of the sequence below the argument, for every sequence and every point - also beyond a repetition-limited '
+       'recurrence, after the repair a648767 (the defect let two instances of a sequential task run at once); '
+       'the next-instance lookup get_next_point is proved under C16 (repair a731fc5). BOUNDED: (P) the real TaskState of every instance of a sequential task '
+       'on one or two recurrences (16 integer, 15 datetime recurrences; singles and pairs) has exactly the '
+       'prerequisite <previous point of the union>/task:succeeded; (C) its succeeded output lists the next union '
+       'point as child; (R) 12 real simulation runs: never two active instances, each submitted only after the '
+       'previous one succeeded.',
+       'TaskState._add_prerequisites and generate_graph_children are bounded only. generate_graph_parents (data '
+       'store display) disagrees with the union reading for one-off recurrences: evaluated, not part of the claim.')
+_bounded('C19', 'c19_bounded',
+         'Real Scheduler runs of 6 integer-cycling workflows (flows {1},{2},{1,2}, hold point, broadcasts, custom '
+         'outputs, xtriggers, retry, stop task, stop point, suicide triggers, preparing task) stopped with the real '
+         'stop command (clean / now) at selected main-loop iterations and restarted on the same run directory - 37 '
+         'runs, 67 restarts incl. a chain of 6 (quick); every iteration x 3 modes + chains (thorough): live '
+         'snapshot before the stop == live snapshot after start-up for (1) task set, status, flows, held, submit '
+         'number (preparing -> waiting, same number) - holds; (2) outputs, (3) prerequisite / xtrigger '
+         'satisfaction, (4) hold point, stop point, stop task, broadcasts, flow counter, (5) same final result as '
+         'the uninterrupted run - six known findings, each with its own classifier; two more defects found by '
+         'this check were repaired (f3ea905 stop task lost on a second restart, f727af3 custom outputs restored '
+         'by label).',
+         'Six SQL tables and start-up code: outside the verifier. Simulation mode; stop --kill and reload not '
+         'exercised.')
+_bounded('C38', 'c38_bounded',
+         'The real init_clean(local_only) / clean / glob_in_run_dir / _clean_using_glob / parse_rm_dirs / '
+         'remove_dir_and_target / remove_dir_or_file on 3350 generated scratch trees (quick): 2 workflow ids x 8 '
+         'symlink-dir configurations x 4 hazard-link groups (links to canary files / dirs, broken, loops, sibling '
+         'workflow, cylc-run itself; inside share, work, log) x 38 accepted + 12 refused --rm requests: only paths '
+         'inside the run directory or its standard symlink targets disappear, canaries are byte-identical, other '
+         'symlinks are not followed, everything matched is gone, refused patterns change nothing.',
+         'File-system code. Remote clean is not exercised. `--rm "**"` with a link back to cylc-run inside a '
+         'numbered run may not terminate (Python glob follows links): excluded from the box, noted in DESIGN.')
+_mixed('C43', 'c43_bounded',
+       'PROVED per call, for every pool: TaskPool.set_stop_point stores the point, lowers a runahead limit beyond '
+       'it to it and puts every pooled waiting task beyond it behind the runahead limit AND out of its queue '
+       '(unless manually triggered), changing nothing else (loop invariant); TaskPool.can_stop is False without a '
+       'request, True for now-now, False while event handlers are pending, for clean / kill exactly when no pooled '
+       'task is submitted / running without a failed kill, for --now regardless of active jobs; stop_task_done is '
+       'True exactly once after the stop task was flagged and forgets it; remove_if_complete flags the stop task '
+       'only when it SUCCEEDED; the tail of compute_runahead keeps the limit <= stop point (C04). BOUNDED: 72 real '
+       'Scheduler starts (quick) of 4 workflows with stop --cycle-point / config / --stopcp, stop --task, clean '
+       'stop, --now, restarts. Two defects found and repaired (3e8d127, 83ae7e2).',
+       'NOT under contract: commands.stop, Scheduler.workflow_shutdown (check_auto_shutdown is, under C03).')
+_mixed('C45', 'c45_bounded',
+       'PROVED: TaskPool.load_abs_outputs_for_restart records every row of the abs_outputs table in '
+       'abs_outputs_done and forgets nothing. BOUNDED: 16 generated workflows (quick) with foo[^], foo[2], '
+       'foo[^+P1], custom outputs, & and | combinations, dependants on several recurrences, small runahead limits, '
+       'manual trigger / set --pre / flow merge, warm start; the real main loop driven one iteration at a time, '
+       'restarts after selected iterations: every pooled instance of every dependant has the prerequisite '
+       'satisfied exactly from the moment the absolute output is completed, also instances spawned later and '
+       'after a restart; the abs_outputs table holds exactly the completed absolute outputs. One defect found and '
+       'repaired (98e6ddf).',
+       'The child loop of spawn_on_output (where the output is recorded) could not be brought under contract '
+       '(DESIGN 11): bounded only.')
 
 NOT_APPLICABLE = {
     'C01': 'equality between the set of instances submitted over a whole run and the spawn-on-demand closure, for '
